@@ -174,10 +174,9 @@ theorem core_state (c : Config) (hv : c.valid = true) (x : Val K) (s2 : Store K)
                             ((s2 .sensitivityMap).getD Val.empty)) := by
   have hsk : ∃ nk, c.scalingKey = .key nk ∧ (nk = .kspace ∨ nk = .maskedKspace ∨ nk = .bodyCoilImage) := by
     simp only [Config.valid, Bool.and_eq_true, Bool.or_eq_true, beq_iff_eq] at hv
-    rcases hv.1.1.1.2 with (h | h) | h
+    rcases hv.1.1.1.2 with h | h
     · exact ⟨_, h, Or.inr (Or.inl rfl)⟩
     · exact ⟨_, h, Or.inl rfl⟩
-    · exact ⟨_, h.1, Or.inr (Or.inr rfl)⟩
   obtain ⟨nk, hnk, hnk'⟩ := hsk
   rw [program_append, program_append, exec_append] at h
   cases h0 : exec S X m (program (preStages c)) (fun k => if k = .kspace then some x else none) with
